@@ -125,6 +125,11 @@ fn battery(w: &mut World, si: usize, known: &mut Vec<String>, strict: &mut u32) 
                     todo.push((kind, idx16(i, n_edges), 0));
                 }
             }
+            17 => {
+                for t in 0..2u8 {
+                    todo.push((kind, 0, t));
+                }
+            }
             9 | 10 | 11 => {
                 let live = w.view(si).nodes.len().max(1);
                 for i in 0..live {
